@@ -161,6 +161,11 @@ def run(ctx):
         n = int(rng.integers(12, 40))
         d = int(rng.integers(2, 6))
         X, kind = gen.dataset(rng, n, d)
+        dup = t % 4 == 3
+        if dup:   # exact duplicate rows: a sample need not be the first entry of its own kNN row
+            for _ in range(int(rng.integers(2, 6))):
+                X[rng.integers(0, n)] = X[rng.integers(0, n)]
+            kind = kind + "+duplicates"
         k = int(rng.integers(3, 9))
         r = float(rng.choice([0.0, 0.5, 1.0]))
         lc = float(rng.choice([1.0, 1.0, 2.0]))
@@ -169,7 +174,7 @@ def run(ctx):
         D = pairwise_distances(X.astype(np.float64), metric=metric)
         np.fill_diagonal(D, 0.0)
         flat = np.sort(D[np.triu_indices(n, 1)])
-        if np.min(np.diff(flat)) < 1e-6 * max(1.0, flat[-1]):
+        if not dup and np.min(np.diff(flat)) < 1e-6 * max(1.0, flat[-1]):
             ctx.skip("near-tied distances")
             continue
         case = {"n": n, "d": d, "k": k, "r": r, "lc": lc, "form": form, "metric": metric, "data_kind": kind,
